@@ -38,11 +38,16 @@ def make_counter():
         _separable = False
         count = 0
         fail_at = None
+        nan_from = None          # second fault kind: from this evaluation on the transform is undefined (NaN) outside a small radius
 
         def evaluate(self, x, y):
             type(self).count += 1
             if type(self).fail_at is not None and type(self).count == type(self).fail_at:
                 raise Boom(f"user transform failed at evaluation {type(self).count}")
+            if type(self).nan_from is not None and type(self).count >= type(self).nan_from:
+                import numpy as _np
+                bad = _np.hypot(_np.asarray(x, dtype=float) - 500.0, _np.asarray(y, dtype=float) - 400.0) > 300.0
+                return _np.where(bad, _np.nan, x * 1.0), _np.where(bad, _np.nan, y * 1.0)
             return x * 1.0, y * 1.0
     return Counter
 
@@ -98,9 +103,10 @@ SETTINGS = [dict(divide="warn", over="warn", under="ignore", invalid="warn"),
             dict(divide="ignore", over="raise", under="warn", invalid="warn")]
 
 
-def trial(Counter, fn, k, setting):
-    """run fn with the counter failing at evaluation k under caller settings; return (how it ended, leaked?)"""
-    Counter.count, Counter.fail_at = 0, k
+def trial(Counter, fn, k, setting, nan=False):
+    """run fn with the counter failing (or, with nan=True, turning NaN outside a radius) at evaluation k under caller settings;
+    return (how it ended, leaked?)"""
+    Counter.count, Counter.fail_at, Counter.nan_from = 0, (None if nan else k), (k if nan else None)
     with warnings.catch_warnings():
         warnings.simplefilter("ignore")
         warnings.filterwarnings("default", category=ResourceWarning)      # a recognisable caller filter
@@ -120,6 +126,7 @@ def trial(Counter, fn, k, setting):
             after = snapshot()
             np.set_printoptions(**po)
     Counter.fail_at = None
+    Counter.nan_from = None
     diffs = []
     for name, a, b in zip(("numpy error state", "warnings filters", "print options"), before, after):
         if a != b:
@@ -183,6 +190,18 @@ def run(ctx):
                 if diffs:
                     problems.append((f"{name}: failure of the user transform at its evaluation {k} of {n} ({how}) leaves " + "; ".join(diffs),
                                      {"entry": name, "crash_index": k, "evaluations": n, "caller_settings": setting}))
+        # second fault kind: the user transform becomes undefined (NaN) over part of the field from evaluation k on, which makes
+        # library calls inside gwcs (LU solves, root finders) fail on their own error paths
+        if name.startswith(("to_fits", "invert", "numerical_inverse(adaptive=True,detect_divergence=True)", "in_image", "footprint")):
+            for k in sorted(set([1, 2, 3, max(1, n // 2), n])):
+                how, diffs, _ = trial(Counter, fn, k, SETTINGS[0], nan=True)
+                total_k += 1
+                ctx.case(key=(name, "nan", k), nontrivial=(how != "normal"), kind=f"{name.split('(')[0]}/nan:{how}",
+                         sample={"entry": name, "nan_from_evaluation": k, "of": n, "ended": how})
+                if diffs:
+                    problems.append((f"{name}: with the user transform undefined (NaN) outside a 300 px radius from its evaluation {k} on, the "
+                                     f"call ends with {how} and leaves " + "; ".join(diffs),
+                                     {"entry": name, "nan_from_evaluation": k, "evaluations": n}))
     ctx.extra["crash_points"] = total_k
     ctx.extra["exhaustive"] = bool(not ctx.quick)
     ctx.oblige("fault enumeration: globals identical before/after at every explored crash index and exit kind", not problems,
